@@ -346,6 +346,10 @@ pub trait Check {
     fn directed(&self) -> u64 {
         0
     }
+    /// true when the directed cases enumerate the whole (finite) space: no random cases follow
+    fn finite(&self) -> bool {
+        false
+    }
     fn run(&mut self, ctx: &mut Ctx, rng: &mut Rng, case: u64);
     /// called once at the end of a worker (for checks that aggregate)
     fn finish(&mut self, _ctx: &mut Ctx) {}
